@@ -1239,7 +1239,25 @@ func (r *rw) expr(e ast.Expr) ast.Expr {
 				case "append":
 					if len(x.Args) >= 2 && r.isSlice(x.Args[0]) && !noAccess && !r.noHook && !(x.Ellipsis.IsValid() && r.isString(x.Args[1])) {
 						site := r.site(x.Args[0], true)
+						inexact := false // an element of another (assignable) type: T cannot be inferred for Append
+						if sl, ok := r.info.TypeOf(x.Args[0]).Underlying().(*types.Slice); ok && !x.Ellipsis.IsValid() {
+							for _, a := range x.Args[1:] {
+								if tv, ok := r.info.Types[a]; ok && tv.Type != nil {
+									if b, isB := tv.Type.(*types.Basic); isB && b.Info()&types.IsUntyped != 0 {
+										continue
+									}
+									if !types.Identical(tv.Type, sl.Elem()) {
+										inexact = true
+									}
+								}
+							}
+						}
 						r.exprs(x.Args)
+						if inexact {
+							n := &ast.BasicLit{Kind: token.INT, Value: fmt.Sprint(len(x.Args) - 1)}
+							x.Args[0] = r.vs("AppendPre", x.Args[0], site, n)
+							return x
+						}
 						na := append([]ast.Expr{x.Args[0], site}, x.Args[1:]...)
 						c := r.vs("Append", na...)
 						c.Ellipsis = x.Ellipsis
